@@ -1,7 +1,272 @@
 import Driver.Common
-open Lean Drv
+import NriModel.Registration
+open Lean Drv Nri
+
+/-!
+Driver for C17. Case kinds:
+
+* `index` – `in = {idx}`, `obs = {res}`: `api.CheckPluginIndex`.
+* `chain` – `in = {regtoms, reqtoms, plugins:[{name, idx, reg, close, retry, cfg, events, sync}]}`,
+            `obs = {done, plugins:[{reg, retry, configures, syncs, events, others, closed}], relayerr, slow}`:
+            scripted plugin ends against a real `Adaptation`, then every lifecycle event relayed once.
+* `dir`   – `in = {umask, existing:[mode], missing, disabled}`, `obs = {start, modes:[mode|null], socket, connect, euid}`.
+
+`agree` compares with `Registration.acceptAll` / `recipients` / `startListener`; `spec` evaluates
+the property on the observation itself (well-formedness is decided by a separate plain reading
+of the name and index, not by `checkIndex`).
+-/
 namespace Drv.C17
-/-- placeholder until the property's driver is written -/
-def judge (_ : Json) : Except String Verdict := .error "C17 driver not implemented"
+open Nri.Registration Nri.Events
+
+def idxErrS : IdxErr → String
+  | .length => "index-length"
+  | .notDigits => "index-digits"
+
+def judgeIndex (inp obs : Json) : Except String Verdict := do
+  let idx ← getStr inp "idx"
+  let res ← getStr obs "res"
+  let m := match checkIndex (S idx) with
+    | .ok () => "ok"
+    | .error e => idxErrS e
+  -- the property's reading of "two-digit index": exactly two characters, both ASCII digits
+  let two := match idx.toList with
+    | [a, b] => a.toNat ≥ 48 && a.toNat ≤ 57 && b.toNat ≥ 48 && b.toNat ≤ 57
+    | _ => false
+  let spec := two == (res == "ok")
+  pure { agree := m == res, spec,
+         why := if !spec then s!"CheckPluginIndex({idx.quote}) = {res}" else if m != res then s!"model {m} impl {res}" else "",
+         sig := if spec then "" else "C17:index",
+         cover := ["index", s!"index:{m}", s!"index:len{idx.length}"],
+         nontrivial := true, model := Json.mkObj [("res", m)] }
+
+/-- ticks: milliseconds -/
+def delay (mode : String) (limit : Nat) : Except String (Option Nat × Bool) :=
+  match mode with
+  | "answer" | "now" => pure (some 0, false)
+  | "short" => pure (some (limit / 4), false)
+  | "late" => pure (some (limit * 5 / 2 + 50), false)
+  | "never" => pure (none, false)
+  | "error" => pure (some 0, true)
+  | m => throw s!"unknown mode {m}"
+
+def decPlug (to : Timeouts) (j : Json) : Except String Behaviour := do
+  let name ← getStr j "name"
+  let idx ← getStr j "idx"
+  let reg ← getStr j "reg"
+  let early := getStrD j "close" == "early"
+  let events ← getNat j "events"
+  if reg == "stub" then
+    -- a real stub around a plugin with all thirteen handlers: registers at once; its own
+    -- Configure refuses a mask naming anything beyond them (C15_configure), answers an empty
+    -- mask with all thirteen, and otherwise passes the mask on
+    let refused := events &&& 0xffffe000 != 0
+    return { regAt := some 0, name := S name, idx := S idx, closeAt := none, cfgAt := some 0, cfgErr := refused,
+             events := BitVec.ofNat 32 (if events == 0 then 0x1fff else events), syncAt := some 0, syncErr := false }
+  let (regAt, _) ← delay reg to.reg
+  let (cfgAt, cfgErr) ← delay (← getStr j "cfg") to.req
+  let (syncAt, syncErr) ← delay (← getStr j "sync") to.req
+  pure { regAt := if early then none else regAt, name := S name, idx := S idx,
+         closeAt := if early then some 0 else none,
+         cfgAt, cfgErr, events := BitVec.ofNat 32 events, syncAt, syncErr }
+
+def outcomeS : Outcome → String
+  | .closedEarly => "closed-early" | .regTimeout => "reg-timeout"
+  | .regRejected .emptyName => "rejected:empty-name"
+  | .regRejected (.badIndex e) => "rejected:" ++ idxErrS e
+  | .cfgTimeout => "cfg-timeout" | .cfgError => "cfg-error"
+  | .invalidEvents _ => "invalid-events" | .syncFailed => "sync-failed"
+  | .activated .. => "activated"
+
+/-- what the plugin end is expected to have seen, from the model's `Handled` -/
+def expectReg (b : Behaviour) (h : Handled) (regMode : String) (early : Bool) : String :=
+  if early || regMode == "never" then "none" else
+  match h.outcome with
+  | .regRejected .emptyName => "empty-name"
+  | .regRejected (.badIndex e) => idxErrS e
+  | .regTimeout => "failed"       -- registered too late: the connection is gone
+  | .closedEarly => "none"
+  | _ => "ok"
+
+def natList (j : Json) (k : String) : Except String (List Nat) := do
+  (← getArr j k).mapM fun x => match x.getNat? with | .ok n => pure n | .error _ => throw s!"{k}: not a number"
+
+def judgeChain (inp obs : Json) : Except String Verdict := do
+  let to : Timeouts := ⟨← getNat inp "regtoms", ← getNat inp "reqtoms"⟩
+  let ps ← getArr inp "plugins"
+  let done ← getStr obs "done"
+  if done.startsWith "harness" then
+    return { agree := false, spec := true, why := done, cover := ["chain"] }
+  if getBoolD obs "slow" then
+    -- the process was stalled by the machine for a noticeable part of a timeout: timing-dependent
+    -- observations of this run prove nothing either way (the harness already retried it)
+    return { agree := true, spec := true, excluded := true, sig := "slow-run", cover := ["chain", "chain:slow-run-skipped"],
+             why := s!"run skipped: process lag {getNatD obs "maxlagms"} ms" }
+  let bs ← ps.mapM (decPlug to)
+  let (st, hs) := acceptAll to {} bs
+  let mut cover : List String := ["chain", s!"chain:len{bs.length}", s!"timeouts:{to.reg}/{to.req}"]
+  let nbad := (hs.filter fun h => match h.outcome with | .activated .. => false | _ => true).length
+  cover := s!"chain:bad{nbad}" :: cover
+  if done != "ok" then
+    -- the last plugin of a chain is well-behaved: if the handshake phase never completed, bad
+    -- plugins ahead of it blocked the accept loop (or the implementation hung or died)
+    return { agree := false, spec := false, sig := "C17:no-block",
+             why := s!"handshakes did not complete ({done}) with {nbad} bad plugin(s) in the chain",
+             cover := "chain:blocked" :: cover, nontrivial := true }
+  let os ← getArr obs "plugins"
+  if os.length != bs.length then
+    return { agree := false, spec := true, why := s!"{bs.length} plugins scripted, {os.length} observed", cover }
+  let mut agree := true
+  let mut spec := true
+  let mut why := ""
+  let mut sig := ""
+  let relayErr ← getStrList obs "relayerr"
+  if !relayErr.isEmpty then
+    agree := false; spec := false; sig := "C17:relay-error"
+    why := s!"relaying events failed: {relayErr}"
+  let mut i := 0
+  for (((pj, b), h), o) in ((ps.zip bs).zip hs).zip os do
+    let regMode := getStrD pj "reg"
+    let early := getStrD pj "close" == "early"
+    let oReg ← getStr o "reg"
+    let oCfg ← getNat o "configures"
+    let oSync ← getNat o "syncs"
+    let oEv ← natList o "events"
+    let oOthers ← getNat o "others"
+    let oClosed := getBoolD o "closed"
+    cover := s!"outcome:{outcomeS h.outcome}" :: cover
+    if getStrD o "retry" != "none" then cover := s!"retry:{getStrD o "retry"}" :: cover
+    -- model ------------------------------------------------------------------------
+    let mReg := expectReg b h regMode early
+    let mEv : List Nat := (List.range 13).map (· + 1) |>.filter fun e => (recipients st e).contains i
+    let mCfg := if h.configured then 1 else 0
+    let mSync := if h.synced then 1 else 0
+    -- The runtime answers RegisterPlugin on one goroutine while `start` already configures the
+    -- plugin on another; when that ends in `p.close()` at once (refused mask, Configure error),
+    -- the close can overtake the registration reply and the plugin sees its call fail.
+    let regLost := mReg == "ok" && oReg == "failed" && h.closed
+    if regLost then cover := "registration-reply-lost-to-close" :: cover
+    let ok := (mReg == oReg || regLost) && mCfg == oCfg && mSync == oSync && mEv == oEv && oOthers == 0 &&
+              (early || h.closed == oClosed)
+    if !ok then
+      agree := false
+      if why == "" then
+        why := s!"plugin #{i} ({outcomeS h.outcome}): model reg={mReg} cfg={mCfg} sync={mSync} events={mEv} closed={h.closed}; " ++
+               s!"impl reg={oReg} cfg={oCfg} sync={oSync} events={oEv} others={oOthers} closed={oClosed}"
+    -- spec, on the observation -----------------------------------------------------
+    let name := getStrD pj "name"
+    let idx := getStrD pj "idx"
+    let events ← getNat pj "events"
+    let wellFormed := name != "" && (match idx.toList with
+      | [a, c] => a.toNat ≥ 48 && a.toNat ≤ 57 && c.toNat ≥ 48 && c.toNat ≤ 57
+      | _ => false)
+    let timely := !early && (regMode == "now" || regMode == "short" || regMode == "stub")
+    if regMode == "stub" then cover := "plugin:real-stub" :: cover
+    let cfgMode := getStrD pj "cfg"
+    let cfgAnswered := cfgMode == "answer" || cfgMode == "short"
+    let validMask := events &&& 0xffffe000 == 0
+    let syncMode := getStrD pj "sync"
+    let syncAnswered := syncMode == "answer" || syncMode == "short"
+    let admissible := wellFormed && timely && cfgAnswered && validMask
+    let wanted : List Nat := (List.range 13).map (· + 1) |>.filter fun e =>
+      if events == 0 then true else events.testBit (e - 1)
+    cover := (if admissible then (if syncAnswered then "class:good" else "class:good-but-sync-fails")
+              else if !wellFormed then "class:malformed" else if !timely then "class:untimely"
+              else if !cfgAnswered then "class:configure-unanswered" else "class:invalid-mask") :: cover
+    if !admissible then
+      -- never synchronised, never sent an event
+      if oSync != 0 then
+        spec := false; sig := s!"C17:isolated:synchronize"
+        why := s!"plugin #{i} (name {name.quote}, index {idx.quote}, reg {regMode}, cfg {cfgMode}, events {events}) is not admissible but received Synchronize"
+      else if !oEv.isEmpty then
+        spec := false; sig := s!"C17:isolated:events"
+        why := s!"plugin #{i} (name {name.quote}, index {idx.quote}, reg {regMode}, cfg {cfgMode}, events {events}) is not admissible but received events {oEv}"
+      else if (!wellFormed || !timely) && oCfg != 0 then
+        spec := false; sig := s!"C17:isolated:configure"
+        why := s!"plugin #{i} (name {name.quote}, index {idx.quote}, reg {regMode}) did not register properly but was sent Configure"
+    else if syncAnswered then
+      -- a good plugin, wherever it stands in the chain, is activated and gets exactly its events
+      if oEv != wanted then
+        spec := false
+        sig := if oEv.isEmpty then "C17:good-not-activated" else "C17:events"
+        why := s!"plugin #{i} is well-formed, timely and answers everything (events {events}) behind {i} other plugin(s); it received events {oEv}, expected {wanted}"
+    else if !oEv.isEmpty then
+      spec := false; sig := "C17:isolated:unsynchronized"
+      why := s!"plugin #{i} never completed Synchronize but received events {oEv}"
+    i := i + 1
+  return { agree, spec, why, sig, cover := cover.eraseDups, nontrivial := true,
+           model := Json.arr (hs.map fun h => Json.str (outcomeS h.outcome)).toArray }
+
+def judgeDir (inp obs : Json) : Except String Verdict := do
+  let umask ← getNat inp "umask"
+  let existing ← natList inp "existing"
+  let missing ← getNat inp "missing"
+  let disabled := getBoolD inp "disabled"
+  let start ← getStr obs "start"
+  let euid := getIntD obs "euid" 0
+  let modesJ ← getArr obs "modes"
+  let oModes : List (Option Nat) := modesJ.map fun x => match x.getNat? with | .ok n => some n | .error _ => none
+  let chain : List (Option Mode) := existing.map (fun m => some (BitVec.ofNat 12 m)) ++ List.replicate missing none
+  let u : Mode := BitVec.ofNat 12 umask
+  -- the harness creates the base directory itself, without special bits
+  let mModes : List (Option Nat) := match startListener disabled u 0o755#12 chain with
+    | none => chain.map fun c => c.map (·.toNat)
+    | some ms => ms.map fun m => some m.toNat
+  let socket := getBoolD obs "socket"
+  let connect := getStrD obs "connect"
+  let msg := getStrD obs "msg"
+  if msg.startsWith "harness" then
+    return { agree := false, spec := true, why := msg, cover := ["dir"] }
+  let mut cover := ["dir", s!"dir:missing{missing}", s!"dir:existing{existing.length}",
+    if disabled then "dir:listening-disabled" else "dir:listening", s!"euid:{if euid == 0 then "root" else "user"}"]
+  -- Without root, a directory created without owner write/search permission cannot take the
+  -- next component or the socket; that is outside the model (it creates unconditionally).
+  let ownerBlocked := euid != 0 && !disabled && missing > 0 && (umask &&& 0o300 != 0)
+  if ownerBlocked then
+    let spec := oModes.zip chain |>.all fun (o, c) => match c, o with
+      | none, some m => m &&& 0o077 == 0
+      | _, _ => true
+    return { agree := true, spec, excluded := true, sig := if spec then "umask-blocks-owner" else "C17:dir-private",
+             why := if spec then "" else s!"umask {umask}: created modes {oModes}", cover := "dir:owner-blocked" :: cover }
+  let mut agree := true
+  let mut spec := true
+  let mut why := ""
+  let mut sig := ""
+  if start != "ok" then
+    agree := false
+    why := s!"Start failed: {msg}"
+  if mModes != oModes then
+    agree := false
+    if why == "" then why := s!"modes: model {mModes} impl {oModes}"
+  if disabled then
+    if socket || connect == "ok" || connect == "refused" then
+      spec := false; sig := "C17:no-listen"
+      why := s!"external connections disabled, yet socket={socket} connect={connect}"
+    if (oModes.drop existing.length).any (·.isSome) then
+      spec := false; sig := "C17:no-listen"
+      why := s!"external connections disabled, yet directories appeared: {oModes}"
+  else
+    if !(socket && connect == "ok") && start == "ok" then
+      agree := false
+      if why == "" then why := s!"listening, but socket={socket} connect={connect}"
+    -- every directory NRI created is closed to group and others
+    let created := (oModes.drop existing.length)
+    match created.find? (fun m => match m with | some v => v &&& 0o077 != 0 | none => false) with
+    | some (some v) =>
+      spec := false; sig := "C17:dir-private"
+      why := s!"umask {Nat.toDigits 8 umask |> String.ofList}: a created socket directory has mode {Nat.toDigits 8 v |> String.ofList}"
+    | _ => pure ()
+    if missing > 0 then cover := "dir:created" :: cover
+  return { agree, spec, why, sig, cover, nontrivial := missing > 0 || disabled,
+           model := Json.arr (mModes.map fun m => match m with | some v => Json.num v | none => Json.null).toArray }
+
+def judge (j : Json) : Except String Verdict := do
+  let inp ← getObj j "in"
+  let obs ← getObj j "obs"
+  match getStrD inp "kind" with
+  | "index" => judgeIndex inp obs
+  | "chain" => judgeChain inp obs
+  | "dir" => judgeDir inp obs
+  | k => throw s!"unknown case kind {k}"
+
 def main : IO UInt32 := runLines judge
 end Drv.C17
